@@ -326,7 +326,30 @@ def plan_C09(prop, tier, seed, t0):
                     "validated by TLC: internal consistency, equality with the abstract model in tag space; non-trivial = operations that changed the graph")
 
 
-PLANS = {"C01": plan_C01, "C09": plan_C09, "C03": plan_C03, "C12": plan_C12, "C11": plan_C11, "C08": plan_C08, "C02": plan_C02, "C04": plan_C04, "C10": plan_C10, "C15": plan_C15}
+def plan_C05(prop, tier, seed, t0):
+    q = tier == "quick"
+    cfgs = ["small", "cat", "cat4", "bss", "tpair", "cat6"] if q else ["small", "cat", "cat4", "cat5", "cat6", "m5", "bss", "tpair"]
+    mcs = [dict(name="step_" + c, module="MC_Decomp.tla", cfg=f"MC_Decomp_{c}.cfg", timeout=3000) for c in cfgs]
+    mcs += [dict(name="par1", module="MC_DecompPar.tla", cfg="MC_DecompPar_1.cfg", timeout=1500),
+            dict(name="par2", module="MC_DecompPar.tla", cfg="MC_DecompPar_2.cfg", timeout=1500)]
+    T = dict(module="Trace_Decomp.tla", cfg="Trace_Decomp.cfg")
+    traces = [
+        dict(name="steps", engine="decomp", args=["--steps", 400 if q else 6000, "--maxt", 6], **T),
+        dict(name="runs", engine="decomp", args=["--runs", 14 if q else 300, "--circuits", 6 if q else 150, "--maxt", 6] + ([] if q else ["--all-threads"]), **T),
+        dict(name="saved", engine="decomp", args=["--saved", 60 if q else 1200, "--maxt", 5], **T),
+    ]
+    return run_plan(prop, tier, seed, t0, mcs, traces, "model_checking", COMMON_ASSUME + [
+                        "'every schedule' of the real rayon pool is sampled (pool sizes 1,2,3,4,8,16 x repetitions), the fork-join model "
+                        "DecompPar shows the combination logic is schedule independent"],
+                    "MC: StepSum (terms sum to the host) for every transcribed replacement family on hosts with T-like spiders, all edge sets "
+                    "among a candidate set, pi/0 hubs, extra Clifford neighbour, optional output, argument orders; fork-join model of the "
+                    "decomposer on computation trees with 2 workers: every partial result equals the subtree's value under every schedule, "
+                    "termination; TRACE: one execution = one host diagram with (a) every driver's chosen step and explicit steps through the "
+                    "guarded apply_decomp re-export, (b) complete Decomposer runs over 7 drivers x 3 simplification levels x split on/off x "
+                    "sequential + parallel pools, (c) saved terms of the BSS-type drivers on diagrams with outputs; all decided in TLC by Den")
+
+
+PLANS = {"C01": plan_C01, "C05": plan_C05, "C09": plan_C09, "C03": plan_C03, "C12": plan_C12, "C11": plan_C11, "C08": plan_C08, "C02": plan_C02, "C04": plan_C04, "C10": plan_C10, "C15": plan_C15}
 
 TECH = "explicit TLA+ specification; TLC exhaustive model checking of the spec + TLC trace validation of recorded executions of the real code"
 META = {
@@ -392,8 +415,17 @@ META["C09"] = dict(level="model_checking", engine="backends", design_ref="DESIGN
          "backends are validated operation by operation (full observable of both after every call) against the abstract model in tag space, "
          "including compaction, clone independence, sub-graph and append.",
     note="enumeration order and edge orientation are not observable (sorted before logging); allocator names are only checked as L1 drift")
+META["C05"] = dict(level="model_checking", engine="decomp", design_ref="DESIGN.md section 3 C05", technique=TECH,
+    text="spec/Decomp.tla transcribes all 20 replace_* constructors with their hard-coded Z[omega] scalars and the dispatchers (cat "
+         "pi-normalisation, padding); TLC verifies StepSum exhaustively over host families for every decomposition kind and validates every "
+         "recorded step of the real code (re-exported apply_decomp), every complete Decomposer run of the configuration grid (scalar equals "
+         "the exact value of the diagram computed by the specification, never flagged approximate) and the saved stabiliser terms; "
+         "spec/DecompPar.tla model-checks schedule independence of the fork-join combination.",
+    note="hosts <= 8 spiders (+ up to 7 created); rayon schedules are sampled, not enumerated; phases k*pi/4")
 NOT_APPLICABLE = {}
 ENGINES = [
+    {"name": "decomp", "path": "spec/Decomp.tla spec/DecompPar.tla mc/MC_Decomp.tla mc/MC_DecompPar.tla mc/Trace_Decomp.tla harness/src/eng_decomp.rs",
+     "serves_properties": ["C05"], "kind_free_text": "TLC exhaustive StepSum + fork-join model + trace validation of steps, runs and saved terms"},
     {"name": "backends", "path": "spec/Backends.tla mc/MC_Backends.tla mc/Trace_Backends.tla harness/src/eng_backends.rs",
      "serves_properties": ["C09"], "kind_free_text": "TLC exhaustive op sequences on two storage machines + trace validation of real histories"},
     {"name": "eqcheck", "path": "spec/Equality.tla mc/MC_Equal.tla mc/Trace_Eq.tla harness/src/eng_circ.rs",
